@@ -521,7 +521,8 @@ def random_cases(tier, rng):
         for s in sh:
             size *= s
         for nnz in range(size + 1):
-            ss = seeds if (size <= 12 or sh == (40,) or tier != "quick") else seeds[:12]
+            ss = seeds if (size <= 12 or sh == (40,) or (tier != "quick" and sh == (5, 8))) else \
+                seeds[: (12 if tier == "quick" else 60)]
             for sd in ss:
                 cases.append((list(sh), None, nnz, sd, next(fmt_cycle), next(fill_cycle), next(idx_cycle),
                               next(samp_cycle)))
@@ -530,7 +531,7 @@ def random_cases(tier, rng):
     for sh in shapes + [(30, 40), (7, 11, 13)]:
         for d in grid:
             big = sh in [(30, 40), (7, 11, 13)]
-            for sd in seeds[: ((1 if big else 4) if tier == "quick" else 20)]:
+            for sd in seeds[: ((1 if big else 4) if tier == "quick" else (4 if big else 10))]:
                 cases.append((list(sh), d, None, sd, next(fmt_cycle), next(fill_cycle), next(idx_cycle),
                               next(samp_cycle)))
     # larger arrays: every branch with large arguments
